@@ -48,7 +48,7 @@ TDurable == Is("TxLogSynced") /\ Durable(N, Ev.upto) /\ UNCHANGED bad
 
 CommitBadName(n, upto) ==
   IF role[n] = "primary" THEN "primary-commits-without-durable-acks"
-  ELSE IF Auth(n) = {} THEN "replica-commits-without-allowance"
+  ELSE IF Auth(n) = {} THEN "replica-commits-while-following-nobody"
   ELSE IF \E p \in Auth(n) : upto <= Len(pre[p]) /\ \A k \in 1..upto : pre[n][k] = pre[p][k] THEN "replica-commits-before-primary"
   ELSE "replica-commits-tx-not-in-primary-history"
 TCommitted ==
